@@ -116,7 +116,7 @@ def strategy(spec, ctx):
 
 def shards(tier):
     n = 16 if tier == 'quick' else 64
-    return [{'examples': 500 if tier == 'quick' else 3000, 'max_leaves': 4 + (i % 3)} for i in range(n)]
+    return [{'examples': 1500 if tier == 'quick' else 8000, 'max_leaves': 4 + (i % 3)} for i in range(n)]
 
 
 def run_shard(spec, ctx):
